@@ -137,6 +137,11 @@ def run(ctx, res):
                     okr = isinstance(r, TupV) and same_view(s2.pc, r.items[0], SliceV(inp.base, inp.start + 2, inp.start + LEN - fillb)) and \
                         isinstance(r.items[1], IntV) and solver.entails(s2.pc, flit(eq(r.items[1].l, Lin.atom(("mod", pb.key(), 8)))))
                     res.ob(bool(okr), "fci-row", acc["bit_string"], "RPSI bit string is [2, len - PB/8) with PB mod 8 ignored trailing bits", detail=repr(r)[:200], pc=s2.pc)
+                    # the padding bits are removed *from the string*: they cannot outnumber its bits (PB <= 8 * (len - 2)),
+                    # in particular bits to ignore in "the last byte" need a last byte
+                    n_dec += 1
+                    res.ob(solver.entails(s2.pc, flit(le(pb, (LEN - 2).scale(8)))), "fci-row", d,
+                           "RPSI: an accepted FCI has at most as many padding bits as bit-string bits (PB <= 8 * (len - 2))", pc=s2.pc)
             continue
         method = {"Fir": "entries", "Sli": "lost_macroblocks", "Nack": "entries"}[fname]
         for s, v in oks:
